@@ -347,6 +347,7 @@ func checkC08(p *Prog, r *Report) {
 	rulePanosEscaped(p, r)
 	ruleGuardTable(p, r, "R08.g", "C08")
 	ruleMergeCompleteness(p, r, "R18.1", map[string]bool{"panos": true})
+	ruleStickyState(p, r, "C08", map[string]bool{"cisco": true, "asa": true, "ios": true}, 9)
 	r.Trusted = []string{"go/ssa, call graph", "audited guard sets in tables/guards.tsv"}
 	r.NotDec = "referential validity of a concrete script; line-number arithmetic beyond the agreement of the constants; duplicate ACL entries"
 }
@@ -682,6 +683,7 @@ func checkC14(p *Prog, r *Report) {
 	}
 	ruleJoinedTransactions(p, r)
 	ruleSinglePass(p, r)
+	ruleStickyState(p, r, "C14", map[string]bool{"cisco": true, "linux": true}, 8)
 	r.Trusted = []string{"go/ssa, call graph"}
 	r.NotDec = "packet-level verdict of each intermediate ACL; the move-inside-block logic itself; membership edits of shared object-groups (excluded by the property)"
 }
